@@ -194,22 +194,33 @@ def reference(meta: list[list[Any]]) -> dict:
             "first_bad": first_bad, "after_empty": after_empty}
 
 
-def oracle(case: dict) -> Failure | None:
-    """The property over what the real parser built."""
+def oracle(case: dict, program=None, report_case=None) -> Failure | None:
+    """The property over what the real parser built. `program`: a tree some long-lived parser of the engine built
+    for `case["text"]` (injected code: ids are not line ids, lines are identified by `position.line`); it is judged
+    exactly like a fresh parse of the same text."""
     import openpectus.lang.model.ast as p
     from harness import parse_common as pc
     text, meta = case["text"], case.get("meta")
     src = text.splitlines()
-    try:
-        method, prog = pc.parse_text(text, custom_ids=case.get("ids") == "custom")
-    except Exception as e:
-        core_reraise(e)
-        return Failure(f"parse-raises:{type(e).__name__}", case,
-                       f"parsing the method raised {type(e).__name__}: {e} — parsing must never fail")
-    nodes = pc.preorder(prog)
-    ids = [n.id for n, _ in nodes]
-    want = [ln.id for ln in method.lines]
-    if len(method.lines) != len(src) or ids != want:
+    report_case = case if report_case is None else report_case
+    if program is None:
+        try:
+            method, prog = pc.parse_text(text, custom_ids=case.get("ids") == "custom")
+        except Exception as e:
+            core_reraise(e)
+            return Failure(f"parse-raises:{type(e).__name__}", case,
+                           f"parsing the method raised {type(e).__name__}: {e} — parsing must never fail")
+        nodes = pc.preorder(prog)
+        ids = [n.id for n, _ in nodes]
+        want = [ln.id for ln in method.lines]
+        n_lines = len(method.lines)
+    else:
+        nodes = pc.preorder(program)
+        ids = [n.position.line for n, _ in nodes]
+        want = list(range(len(src)))
+        n_lines = len(src)
+    case = report_case
+    if n_lines != len(src) or ids != want:
         return Failure("not-one-node-per-line-in-source-order", case,
                        f"{len(src)} source lines, node ids in tree order {ids[:12]}, line ids {want[:12]}")
     if meta is None:
@@ -239,6 +250,12 @@ def oracle(case: dict) -> Failure | None:
         if got != ref["parents"][i]:
             wrong.append((i, got, ref["parents"][i]))
     if not wrong:
+        # correctly indented and correctly nested: then nothing is an indentation error either (a flagged line does
+        # not execute) — except under the reading that flags the line after an opener without body
+        bad = [f for f in flagged if not any(e <= f for e in ref["after_empty"])]
+        if bad:
+            return Failure("correct-indentation-flagged", case,
+                           f"line {bad[0] + 1} ({src[bad[0]]!r}) of a correctly indented text carries indent_error")
         return None
     i, got, exp = wrong[0]
     if any(e in flagged and e <= i for e in ref["after_empty"]):
@@ -311,7 +328,10 @@ def run(ctx: Check) -> int:
                 "every str.splitlines line boundary, a quarter through caller-built ParserMethod objects with foreign line "
                 "ids; (b') every unparsable line x every opener kind x first/middle/last body line x depth 1/2; (c) all "
                 "texts of up to 4/5 lines over a 9-line alphabet (openers, leaves, comments, blanks, an unparsable line, "
-                "indentation 0/2/4/8); (d) arbitrary unicode lines. The oracle judges indentation from the text. Non-trivial = at least two instruction lines of which one is "
+                "indentation 0/2/4/8); (d) arbitrary unicode lines. The oracle judges indentation from the text. (e) sequences through the "
+                "engine's long-lived parsers: 2-4 generated texts injected through ONE MethodManager inject parser (each judged "
+                "as a fresh parse, and compared with a fresh inject parser); set_method / Start / live edit that inserts, "
+                "removes, reorders unstarted lines / Restart or Stop+Start: node ids = line ids of the current method. Non-trivial = at least two instruction lines of which one is "
                 "indented.")
 
     def nontrivial(c, o):
@@ -350,6 +370,14 @@ def run(ctx: Check) -> int:
     # the property oracle on everything generated
     for name, cases in streams:
         ctx.monitor(cases, oracle)
+    # the engine's long-lived parser objects: sequences of injections through one inject parser; method re-parsed
+    # after live edit + Restart / Stop+Start. Each parse is judged as a fresh parse of the same text would be.
+    seqs = [gen_inject_sequence(rng) for _ in range(ctx.n(25, 400))] + \
+           [gen_method_sequence(rng) for _ in range(ctx.n(10, 120))]
+    seqs = [c for c in load_corpus("C17") if "inject_sequence" in c or "method_sequence" in c] + seqs
+    ctx.monitor(seqs, oracle_sequence, impl_timeout=60.0)
+    ctx.count("inject_sequences", sum(1 for c in seqs if "inject_sequence" in c))
+    ctx.count("method_edit_reparse_sequences", sum(1 for c in seqs if "method_sequence" in c))
     ctx.exhaustive = False
     ctx.extra["exhaustive_scope"] = (f"all texts of 1..{ctx.n(4, 5)} lines over 9 line shapes (incl. an indented "
                                      f"unparsable line): "
@@ -362,6 +390,75 @@ def run(ctx: Check) -> int:
                        "parser that flags the line right after it instead)",
                        "a source line is a line of str.splitlines (what ParserMethod.from_pcode uses)"]
     return ctx.finish(search=_search)
+
+
+# ----------------------------------------------------------------------------------------------
+# sequences through the engine's long-lived parsers
+
+def gen_inject_sequence(rng: random.Random) -> dict:
+    return {"inject_sequence": [gen_structured(rng, 5, 0.0 if rng.random() < 0.6 else 0.2) for _ in range(rng.randint(2, 4))]}
+
+
+def gen_method_sequence(rng: random.Random) -> dict:
+    pool = ["Mark: b", "Mark: c", "Info: x", "Wait: 0.1s", "Mark: d", "Warning: w", "Mark: e"]
+    head = [["01", "Mark: A"], ["02", "Wait: 0.5s"]]
+    tail = [[f"{i + 3:02d}", rng.choice(pool)] for i in range(rng.randint(1, 4))]
+    new = list(tail)
+    nxt = 50
+    for _ in range(rng.randint(1, 3)):   # insert / remove / reorder lines that have not started
+        r = rng.random()
+        if r < 0.5 or not new:
+            new.insert(rng.randint(0, len(new)), [f"{nxt}", rng.choice(pool)])
+            nxt += 1
+        elif r < 0.8:
+            new.pop(rng.randrange(len(new)))
+        else:
+            rng.shuffle(new)
+    return {"method_sequence": {"v1": head + tail, "v2": head + new, "how": rng.choice(["Restart", "Stop+Start"])}}
+
+
+def oracle_sequence(case: dict) -> list[Failure]:
+    from harness import parse_common as pc
+    from harness import parse_sequences as ps
+    out: list[Failure] = []
+    if "inject_sequence" in case:
+        seq = case["inject_sequence"]
+        res = ps.run_inject_sequence([c["text"] for c in seq])
+        for k, (c, r) in enumerate(zip(seq, res)):
+            rc = {"inject_sequence": seq[: k + 1]}
+            if r["raised"]:
+                out.append(Failure("parse-raises:" + r["raised"].split(":")[0], rc,
+                                   f"injection {k + 1} ({c['text']!r}): the inject parser raised {r['raised']}"))
+                break
+            fresh = ps.fresh_inject_rows(c["text"], pc.UOD)
+            f = oracle(c, program=r["program"], report_case=rc)
+            if f is not None:
+                f.detail = f"injection {k + 1} of {len(seq)} through one inject parser: " + f.detail
+                out.append(f)
+                break
+            if r["rows"] != fresh:
+                out.append(Failure("parse-depends-on-earlier-parses", rc,
+                                   f"injection {k + 1} ({c['text']!r}) parsed by the engine's inject parser after "
+                                   f"{k} other injection(s): {r['rows']}; parsed by a fresh parser: {fresh}"))
+                break
+        return out
+    m = case["method_sequence"]
+    o = ps.run_method_sequence(m["v1"], m["v2"], m["how"])
+    if o["raised"]:
+        return [Failure("parse-raises:" + o["raised"].split(":")[0], case, f"the sequence raised {o['raised']}")]
+    if o.get("reparse", "ok") != "ok":
+        out.append(Failure("parse-raises:" + o["reparse"].split(":")[0], case,
+                           f"re-parsing the current method (reset_interpreter, as Restart/Stop do) after a live edit "
+                           f"raised {o['reparse']}"))
+    for st in o["stages"]:
+        if st["stage"] == "live-edit" and o["edit"] != "ok":
+            break   # the edit was refused: nothing to judge
+        if st["node_ids"] != st["line_ids"] or st["node_lines"] != list(range(len(st["line_ids"]))):
+            out.append(Failure("node-ids-differ-from-current-method-line-ids", case,
+                               f"stage {st['stage']}: program node ids {st['node_ids']} (lines {st['node_lines']}) but the "
+                               f"current method has line ids {st['line_ids']}"))
+            break
+    return out
 
 
 def _search(ctx: Check) -> None:
@@ -377,6 +474,17 @@ def _search(ctx: Check) -> None:
 def replay(obj) -> int:
     from harness import parse_common as pc
     case = obj.get("case") or {}
+    if "inject_sequence" in case or "method_sequence" in case:
+        if "inject_sequence" in case:
+            for k, c in enumerate(case["inject_sequence"]):
+                print(f"injection {k + 1}: {c['text']!r}")
+        else:
+            print("method sequence:", case["method_sequence"])
+        fs = oracle_sequence(case)
+        for f in fs:
+            print("oracle:", f.key, f.detail)
+        print("oracle: ok" if not fs else "")
+        return 1 if fs else 0
     if "text" not in case:
         for d in obj.get("disagreements", [])[:1]:
             case = d.get("case", {})
